@@ -100,7 +100,7 @@ def main():
         for f in cf.as_completed(futs):
             c, k = futs[f]
             name, status, detail = f.result()
-            results.append((k, c["property"], name, status))
+            results.append((k, str(c["property"]), name, status))
             ok = status in ("CAUGHT", "SILENT")
             print(f"{'ok  ' if ok else 'FAIL'} {k:8s} {str(c['property']):6s} {name}: {status}")
             if not ok:
